@@ -63,6 +63,11 @@ def parent_identity(fn, path_local):
     return path_identity(fn, a.local) if a is not None else None
 
 
+def sibling_region(fn, sw, variant):
+    import sibling
+    return sibling.arm_regions(fn, sw).get(variant, set())
+
+
 def ops_pushed(fn):
     """(aggregate stmt, push block) for every FileSystemOperation constructed and pushed."""
     out = []
@@ -191,8 +196,32 @@ def run(cx):
     # write-iff-changed. Two idioms decide whether a file is written: `old.map(|h| h != new).unwrap_or(true)` and a
     # direct comparison of the two hashes in the body (`Some(h) if h == new => {}`); both are decision points.
     uo = [t for t in df.calls() if term_calls(t, r"Option::<T>::unwrap_or$")]
-    direct = [t for t in df.calls() if re.search(r"PartialEq(<.*>)?>?::(eq|ne)$", t.declared or "") and "ArtifactHash" in " ".join(t.j.get("atys", []))]
-    cx.floor("R18.write-iff-changed decision points (should_write computations / hash comparisons)", len(uo) + len(direct), 2)
+    HASH_CMP = lambda t: re.search(r"PartialEq(<.*>)?>?::(eq|ne)$", t.declared or "") and "ArtifactHash" in " ".join(t.j.get("atys", []))
+    direct = [t for t in df.calls() if HASH_CMP(t)]
+    # third idiom: a private predicate `fn file_needs_write(old: Option<..>, new_hash) -> bool`
+    dcone = owner_cone(fb, [df.id], crates={"artifact_content"})
+    helper_calls = []
+    for t in df.calls():
+        h = fb.fns.get(t.callee)
+        if h is not None and h.id in dcone and h is not df and (h.ret or "") == "bool" and any(HASH_CMP(x) for g_ in fb.with_closures(h) for x in g_.calls()):
+            helper_calls.append((t, h))
+    cx.floor("R18.write-iff-changed decision points (should_write computations / hash comparisons)", len(uo) + len(direct) + len(helper_calls), 2)
+    for k, (t, h) in enumerate(helper_calls):
+        # absent old file => true
+        absent_true = False
+        for sw_ in discr_switches(h):
+            if "None" in sw_["arms"]:
+                reg = sibling_region(h, sw_, "None")
+                for b_ in reg:
+                    for st_ in h.blocks[b_].stmts:
+                        if st_.dst is not None and st_.dst.local == 0 and st_.ops and (op_const(st_.ops[0]) or {}).get("v") is True:
+                            absent_true = True
+        cx.ob("R18.write-iff-changed", "%s|absent-old-file-is-written|helper#%d" % (df.id, k), absent_true,
+              "a file that did not exist in the old state must be written (%s must answer true for None)" % h.name, h.loc())
+        br = call_bool_branch(df, t)
+        guarded = br is not None and any(df.dominates(br[0], w.bb) for w in dwrites)
+        cx.ob("R18.write-iff-changed", "%s|write-guarded-by-predicate#%d" % (df.id, k), guarded,
+              "the answer of %s does not guard a WriteFile" % h.name, df.loc(t.line), nontrivial=False)
     for t in uo:
         c = op_const(t.args[1])
         cx.ob("R18.write-iff-changed", "%s|absent-old-file-is-written|L%d" % (df.id, [x.bb for x in uo].index(t.bb)),
@@ -206,7 +235,7 @@ def run(cx):
         written = [w for w in dwrites if df.dominates(same_t, w.bb)]
         cx.ob("R18.write-iff-changed", "%s|equal-hash-not-rewritten#%d" % (df.id, k), not written,
               "a file whose content hash is unchanged is written again", df.loc(t.line))
-    cmp_ok = len(direct)
+    cmp_ok = len(direct) + len(helper_calls)
     for cl in fb.closures_of(df):
         for t in cl.calls():
             if re.search(r"PartialEq(<.*>)?>?::ne$", t.declared or "") and "ArtifactHash" in " ".join(t.j.get("atys", [])):
